@@ -68,6 +68,30 @@ CHECKS = {
         tech="property-based testing: reference acceptance predicate (both directions: accept<=>run, reject<=>JaqalError)",
         ref="DESIGN.md section 3 / C12",
     ),
+    "C06": dict(
+        text="Generated-input search + bounded exhaustive enumeration: for alias chains of depth 1-5 (strided, let-valued and defaulted bounds) every valid reference is resolved by the reference arithmetic and compared with resolve_qubit, fill_in_map (after macro expansion and let substitution, meaning unchanged), get_used_qubit_indices, the pyGSTi label and the emulator (probability 1 on 1<<idx); all two-level slice chains over registers up to 4 (quick) / 7 (thorough) qubits are enumerated completely for the three static consumers.",
+        note=TRUST + "emulator consumer sampled (8 references per case, n <= 8); pyGSTi consumer only if its module imports.",
+        tech="property-based testing: reference-model oracle with N-way differential between consumers; exhaustive enumeration of a bounded sub-domain",
+        ref="DESIGN.md section 3 / C06",
+    ),
+    "C09": dict(
+        text="Generated-input search: structurally, expand_subcircuits (default / caller-named / caller-object definitions, anonymous or native gates) must leave no subcircuit block (macro bodies included), match the reference meaning of the spelled-out program, use the right definition objects and keep header data; behaviourally, a program and its spelled-out twin (prepare_all; B; measure_all) must run and parse hardware outputs identically (counts, probabilities 1e-12, attribution, frequencies).",
+        note=TRUST + "behavioural part restricted to programs the reference accepts; sampled values are not compared, only attribution and distributions.",
+        tech="property-based testing: reference-model oracle + differential between two spellings of the same program",
+        ref="DESIGN.md section 3 / C09",
+    ),
+    "C13": dict(
+        text="Generated-input search: get_used_qubit_indices of circuits and of busy-free statements must equal the reference used set exactly (aliases of aliases, strided slices, let indices, macro parameters, loops, idle gates); programs with an overlap injected into a parallel block through a random name of the shared qubit (or an idle gate, which must not count) must be rejected by the emulator exactly when the reference says the branches intersect, and accepted programs must be invariant under branch permutation.",
+        note=TRUST + "an unexpanded subcircuit block contributes the gates written in it (its implicit prepare/measure exist only after expand_subcircuits).",
+        tech="property-based testing: reference-model oracle (exact set, both inclusions) + fault injection + metamorphic permutation",
+        ref="DESIGN.md section 3 / C13",
+    ),
+    "C15": dict(
+        text="Generated-input search + bounded exhaustive enumeration: every view of every subcircuit result (simulated/relative/probability, by_int/by_str) and every Readout is checked against the little-endian convention, normalisation and counts, for emulator runs and for output lists given as ints and as strings; ALL outcomes for n <= 6 (quick) / 9 (thorough) qubits are fed through the output parser and (n <= 6) through emulated basis-state preparation.",
+        note=TRUST + "the convention is the one documented in core/result.py.",
+        tech="property-based testing: invariant/validity predicates over result views + exhaustive outcome enumeration",
+        ref="DESIGN.md section 3 / C15",
+    ),
 }
 
 ORDER = [f"C{i:02d}" for i in range(1, 21)]
